@@ -415,7 +415,68 @@ def vasprun(cell, forces):
 @st.composite
 def fs_specs(draw, tier):
     return {"key": draw(keys), "natom": draw(st.integers(2, 4)), "interleaved": draw(st.booleans()),
-            "mode": draw(st.sampled_from(["ok", "ok", "shifted", "permuted", "wrong_disp", "sorted_like_poscar"])), "fz": draw(st.booleans())}
+            "mode": draw(st.sampled_from(["ok", "ok", "shifted", "permuted", "wrong_disp", "sorted_like_poscar", "lammps_sorted", "lammps_cyclic", "lammps_shuffled"])), "fz": draw(st.booleans())}
+
+
+def _force_sets_lammps(spec, cell, rng):
+    """LAMMPS dump files list atoms with their ids in whatever order the ranks wrote them: forces must follow the ids."""
+    import contextlib
+    import io
+
+    from phonopy import Phonopy
+    from phonopy.cui.create_force_sets import create_FORCE_SETS
+    from phonopy.file_IO import parse_FORCE_SETS
+    from phonopy.interface.phonopy_yaml import PhonopyYaml
+    from phonopy.structure.atoms import PhonopyAtoms
+
+    # LAMMPS orientation (a along x, b in the xy plane): forces need no rotation
+    Ltri = np.linalg.cholesky(cell.cell @ cell.cell.T)
+    cell = PhonopyAtoms(symbols=cell.symbols, cell=Ltri, scaled_positions=cell.scaled_positions)
+    ph = Phonopy(cell, supercell_matrix=[2, 1, 1], calculator="lammps", log_level=0)
+    ph.generate_displacements(distance=0.03)
+    n = len(ph.supercell)
+    fc = springs_fc(ph.supercell)
+    true_forces = []
+    for d in ph.dataset["first_atoms"]:
+        u = np.zeros((n, 3))
+        u[d["number"]] = d["displacement"]
+        true_forces.append(-np.einsum("ijab,jb->ia", fc, u))
+    types = {s_: k + 1 for k, s_ in enumerate(dict.fromkeys(ph.supercell.symbols))}
+    with TmpCwd():
+        ph.save("phonopy_disp.yaml")
+        files = []
+        for k, (sc, fr) in enumerate(zip(ph.supercells_with_displacements, true_forces)):
+            order = np.arange(n)
+            if spec["mode"] == "lammps_cyclic":
+                order = np.roll(order, 1 + k % max(1, n - 1))
+            elif spec["mode"] == "lammps_shuffled":
+                order = rng.permutation(n)
+            lines = ["ITEM: TIMESTEP", "0", "ITEM: NUMBER OF ATOMS", str(n), "ITEM: BOX BOUNDS xy xz yz pp pp pp", "0 1 0", "0 1 0", "0 1 0",
+                     "ITEM: ATOMS id type x y z fx fy fz"]
+            for i in order:
+                x = sc.positions[i]
+                lines.append("%d %d %15.8f %15.8f %15.8f %15.8f %15.8f %15.8f" % (i + 1, types[sc.symbols[i]], x[0], x[1], x[2], fr[i][0], fr[i][1], fr[i][2]))
+            fn = "forces.%d" % k
+            open(fn, "w").write("\n".join(lines) + "\n")
+            files.append(fn)
+        buf = io.StringIO()
+        try:
+            with contextlib.redirect_stdout(buf):
+                py = PhonopyYaml()
+                py.read("phonopy_disp.yaml")
+                create_FORCE_SETS("lammps", files, phpy_yaml=py, disp_filename="phonopy_disp.yaml", force_sets_zero_mode=False, log_level=1)
+            raised = None
+        except BaseException as e:  # noqa: BLE001
+            raised = e
+        if not os.path.exists("FORCE_SETS"):
+            return Out(ok=False, msg="FORCE_SETS refused for complete LAMMPS dumps (%s): %s %r" % (spec["mode"], buf.getvalue()[-300:], raised))
+        ds = parse_FORCE_SETS(natom=n)
+        for k, fa in enumerate(ds["first_atoms"]):
+            err = np.abs(fa["forces"] - true_forces[k]).max()
+            if err > 2e-8:  # dumps carry 8 decimals
+                return Out(ok=False, msg="FORCE_SETS built from LAMMPS dumps whose atoms are listed in %s order pairs forces with the wrong atoms: "
+                           "max error %.3e" % (spec["mode"], err))
+    return Out(ok=True, nontrivial=spec["mode"] != "lammps_sorted", classes=["mode:" + spec["mode"], "accepted"])
 
 
 def run_force_sets(spec):
@@ -431,6 +492,8 @@ def run_force_sets(spec):
           "shear": 0.15, "disp": False}
     cell = make_cell(cs)
     rng = rng_from(spec["key"], 9)
+    if spec["mode"].startswith("lammps"):
+        return _force_sets_lammps(spec, cell, rng)
     ph = Phonopy(cell, supercell_matrix=[2, 1, 1], log_level=0)
     ph.generate_displacements(distance=0.03)
     scs = ph.supercells_with_displacements
